@@ -929,7 +929,7 @@ Definition unmarshal_prog_correct_stmt : Prop :=
   forall sch discard f depth mid target bs,
     wf sch = true -> (mid < length sch)%nat ->
     (target = VNil \/ wt_msg sch mid target = true) ->
-    Z.of_nat (length bs) < Z.of_N two63 ->
+    Z.of_nat (length bs) + 8 < Z.of_N two63 ->   (* +8: decodeFixed64's guard `(iNdEx + 8) > l` must not wrap; found by the proof, T6 *)
     run_unmarshal sch discard (unmarshal_at sch discard f (depth - 1)) depth mid (canon_unmarshal sch mid) target bs
     = Some (unmarshal_at sch discard (S f) depth mid target bs).
 
